@@ -605,8 +605,19 @@ def one_run(top, inp, spec):
         plan = {'stage': 'mapping', 'worker': rr.randrange(k), 'mode': rr.choice(FAULT_MODES),
                 'point': rr.choice(FAULT_POINTS)}
         detail = plan
+    # the output locations are ARGUMENTS of run_mapping; the configuration may repeat them, leave them None or omit
+    # the keys altogether (run_mapping does not read them from the configuration)
+    out_args = {'output_path': cfg['extended_result_path'], 'log_path': cfg['log_path'],
+                'hdf5_output_path': cfg['hdf5_result_path']}
+    cfg_outputs = rr.choice(['repeated', 'repeated', 'none'])      # (omitting the keys makes the run raise KeyError)
+    if cfg_outputs != 'repeated':
+        for key_ in ('extended_result_path', 'hdf5_result_path', 'log_path'):
+            if cfg_outputs == 'none':
+                cfg[key_] = None
+            else:
+                cfg.pop(key_, None)
     given = copy.deepcopy(cfg)
-    obs = {'spec': spec, 'detail': detail, 'config': given, 'error': None, 'fired': None}
+    obs = {'spec': spec, 'detail': detail, 'config': given, 'error': None, 'fired': None, 'output_keys_in_config': cfg_outputs}
     buf = io.StringIO()
     trace_dir = d / 'trace'
     snapshot = None
@@ -624,8 +635,7 @@ def one_run(top, inp, spec):
             with contextlib.redirect_stdout(buf), contextlib.redirect_stderr(buf), warnings.catch_warnings():
                 warnings.simplefilter('ignore')
                 try:
-                    real(cfg, output_path=cfg['extended_result_path'], log_path=cfg['log_path'],
-                         hdf5_output_path=cfg['hdf5_result_path'])
+                    real(cfg, **out_args)
                     snapshot = [str(x) for x in cap.logs[-1].log] if cap.logs else None
                 except Exception as e:
                     # taken while the traceback still holds the frames of the run: the FileTracker of a failed run
@@ -642,14 +652,14 @@ def one_run(top, inp, spec):
                 faults.disarm()
     # ---- what the run recorded
     sinks = {}
-    jp = pathlib.Path(given['extended_result_path'])
+    jp = pathlib.Path(out_args['output_path'])
     if jp.is_file():
         try:
             blob = json.load(open(jp))
             sinks['json'] = {'config': blob.get('config'), 'log': blob.get('log')}
         except ValueError as e:
             sinks['json'] = {'unreadable': str(e)[:200]}
-    hp = pathlib.Path(given['hdf5_result_path'])
+    hp = pathlib.Path(out_args['hdf5_output_path'])
     if hp.is_file():
         try:
             with h5py.File(hp, 'r') as f:
@@ -658,8 +668,8 @@ def one_run(top, inp, spec):
                 sinks['hdf5'] = {'config': meta.get('config'), 'log': meta.get('log')}
         except (OSError, ValueError, KeyError) as e:
             sinks['hdf5'] = {'unreadable': str(e)[:200]}
-    if given['log_path'] is not None and pathlib.Path(given['log_path']).is_file():
-        sinks['log_file'] = open(given['log_path'], encoding='utf-8', errors='surrogateescape').read()
+    if out_args['log_path'] is not None and pathlib.Path(out_args['log_path']).is_file():
+        sinks['log_file'] = open(out_args['log_path'], encoding='utf-8', errors='surrogateescape').read()
     obs['sinks'] = sinks
     # ---- the raw log and the file-system facts
     raw = snapshot
@@ -774,11 +784,13 @@ def judge_run(ctx, obs, m_cfg, m_log, menc):
     for where, s in sink_strings(sinks):
         for leak in find_leaks(s, limit=20):
             n_leaks += 1
-            c = leak_class(s, leak, original_words)
-            # a leak is put down to a recorded weakness of sanitize_paths only when the record is exactly what the
-            # model of sanitize_paths makes of the raw text: anything else did not come out of the sanitiser
-            if c not in KNOWN_LEAK_CLASSES or not agrees.get(where, False):
-                c = RUN_LEAK
+            # The recorded weaknesses of sanitize_paths (F10, F13, F14, F18) are findings about the FUNCTION, identified
+            # on generated strings.  Whether a real run's records leak is a matter of which texts the run produces: on
+            # the unchanged tree no cloud-safe run of any class leaks (the package words its own messages so that the
+            # sanitiser can cope: '../parent/name'), so a leaking record is a violation whatever mechanism let it
+            # through -- the mechanism is reported as a hint only
+            mech = leak_class(s, leak, original_words)
+            c = RUN_LEAK
             if (c, where) in seen:
                 continue
             seen.add((c, where))
@@ -789,6 +801,7 @@ def judge_run(ctx, obs, m_cfg, m_log, menc):
             r2['leaked'] = leak[1]
             r2['context'] = s[max(0, i - 120):i + len(leak[1]) + 60]
             r2['record_equals_model'] = agrees.get(where, False)
+            r2['sanitiser_weakness_that_let_it_through'] = mech if mech in KNOWN_LEAK_CLASSES else None
             ctx.violation(f'cloud-safe run ({cls}, log_path {"given" if spec["log_path_given"] else "None"}, tmp_dir '
                           f'{"given" if spec["tmp_dir_given"] else "None"}; {obs["error"] or "succeeded"}): {where} '
                           f'contains the absolute host path {leak[1]!r}: ...{r2["context"]!r}...'[:1200], r2)
@@ -859,6 +872,7 @@ def run_cases(ctx):
         has_tb = any('Traceback' in s for s in (obs['raw_log'] or []))
         ctx.count(('run', spec['sseed'], spec['idx']), nontrivial=failed and has_tb)
         ctx.dist('run', f'{cls}: ' + ('failed' if failed else 'ok') + ', records ' + '+'.join(sorted(obs['sinks'])))
+        ctx.dist('run_output_keys_in_config', obs.get('output_keys_in_config'))
         ctx.dist('run_log_and_tmp', f'log_path {"given" if spec["log_path_given"] else "None"}, tmp_dir '
                                     f'{"given" if spec["tmp_dir_given"] else "None"}')
         if n_leaks:
